@@ -1178,9 +1178,14 @@ class ClientSession:
                     notakeover = False
 
             conn = resp.connection
-            assert conn is not None
-            conn_proto = conn.protocol
-            assert conn_proto is not None
+            conn_proto = None if conn is None else conn.protocol
+            transport = None if conn is None else conn.transport
+            if conn is None or conn_proto is None or transport is None:
+                # The peer hung up between its 101 and this point (an awaiting
+                # trace callback gives it the time).
+                raise ServerDisconnectedError(
+                    "Connection lost before the WebSocket was set up"
+                )
 
             # For WS connection the read_timeout must be either ws_timeout.ws_receive or greater
             # None == no timeout, i.e. infinite timeout, so None is the max timeout possible
@@ -1192,8 +1197,6 @@ class ClientSession:
                     ws_timeout.ws_receive, conn_proto.read_timeout
                 )
 
-            transport = conn.transport
-            assert transport is not None
             reader = WebSocketDataQueue(conn_proto, DEFAULT_CHUNK_SIZE, loop=self._loop)
             writer = WebSocketWriter(
                 conn_proto,
